@@ -245,7 +245,7 @@ pub fn run(tier: Tier) -> i32 {
             }
             rep.sample(json!({"voice": case.name, "frames": nframes, "history": [op_json(&Op::Step(1), fp), op_json(&Op::Frames, fp), op_json(&Op::Finish, fp)]}));
         }
-        if counts[0] != counts[1] {
+        if rep.violation_count() == 0 && counts[0] != counts[1] {
             crate::elog!("MACHINERY: state counts differ between thread counts: {:?}", counts);
             return 2;
         }
